@@ -231,7 +231,9 @@ pub fn payload_id_bits(scheme: Scheme, m: u8) -> (u32, u32) {
         Scheme::RaptorQ => (8, 24),
         Scheme::Rs28Us => (32, 16),
         Scheme::Rs2m => {
-            let m = if m == 0 { 8 } else { m } as u32;
+            // m is 2..16 per RFC 5510; out-of-range values (hostile FTIs in C04) are clamped so
+            // that the reference code itself never overflows
+            let m = (if m == 0 { 8 } else { m } as u32).clamp(1, 31);
             (32 - m, m)
         }
     }
